@@ -9,6 +9,7 @@ pub mod c06;
 pub mod c14;
 pub mod c15;
 pub mod c16;
+pub mod c17;
 
 pub fn run(ctx: &Ctx) -> Report {
   match ctx.prop.as_str() {
@@ -22,6 +23,7 @@ pub fn run(ctx: &Ctx) -> Report {
     "C14" => c14::run(ctx),
     "C15" => c15::run(ctx),
     "C16" => c16::run(ctx),
+    "C17" => c17::run(ctx),
     other => {
       eprintln!("no harness for property {other}");
       std::process::exit(2);
